@@ -64,6 +64,54 @@ def path_params(ctx):
     return pp
 
 
+def memoised_ambient_census(ctx, rc):
+    prog = ctx.prog
+    # nothing whose answer depends on ambient state (working directory,
+    # file system) is memoised across calls
+    MEMO = {'lru_cache', 'cache', 'cached_property', 'memoize', 'memoized'}
+    AMBIENT = ('os.path.abspath', 'os.getcwd', 'os.path.realpath',
+               'os.path.expanduser', 'os.stat', 'os.listdir',
+               'os.path.isfile', 'os.path.isdir', 'os.path.exists',
+               'os.path.getsize', 'os.path.getmtime', 'builtins.open',
+               'gzip.open', 'io.open', 'os.scandir', 'os.lstat')
+    n_memo = 0
+    for f in prog.funcs.values():
+        decs = {ast.unparse(d).split('(')[0].split('.')[-1]
+                for d in f.node.decorator_list}
+        if not (decs & MEMO):
+            continue
+        n_memo += 1
+        prims = set()
+        todo, seenf = [f], set()
+        while todo:
+            f0 = todo.pop()
+            if f0.qualname in seenf:
+                continue
+            seenf.add(f0.qualname)
+            for c in prog.calls_in(f0):
+                for g in prog.resolve_call(c, f0):
+                    if isinstance(g, Func):
+                        todo.append(g)
+                    else:
+                        prims.add(g)
+        amb = sorted(p for p in prims if p in AMBIENT)
+        key = 'memoised function ' + f.qualname
+        if amb:
+            rc.violation(
+                'memoised-ambient | ' + f.qualname,
+                '%s is memoised (%s) although its result depends on %s: '
+                'after a change of the working directory / file system the '
+                'same spelling maps to a stale answer (two identities for '
+                'one path, or one for two)' % (
+                    f.qualname, sorted(decs & MEMO), amb),
+                prog.loc(f, f.node), key=key)
+        else:
+            rc.ok({'memoised': f.qualname, 'pure': True}, key=key)
+    if n_memo == 0:
+        rc.ok({'memoised_functions': 0}, key='no memoised function reads '
+              'ambient state')
+
+
 def r7_1(ctx, rc):
     R = ctx.R
     prog = ctx.prog
@@ -160,49 +208,7 @@ def r7_1(ctx, rc):
                     rc.ok({'sink': key}, key=key)
     if n_sinks < 4:
         raise AnalysisError('only %d path sinks found' % n_sinks)
-    # nothing whose answer depends on ambient state (working directory,
-    # file system) is memoised across calls
-    MEMO = {'lru_cache', 'cache', 'cached_property', 'memoize', 'memoized'}
-    AMBIENT = ('os.path.abspath', 'os.getcwd', 'os.path.realpath',
-               'os.path.expanduser', 'os.stat', 'os.listdir',
-               'os.path.isfile', 'os.path.isdir', 'os.path.exists',
-               'os.path.getsize', 'os.path.getmtime')
-    n_memo = 0
-    for f in prog.funcs.values():
-        decs = {ast.unparse(d).split('(')[0].split('.')[-1]
-                for d in f.node.decorator_list}
-        if not (decs & MEMO):
-            continue
-        n_memo += 1
-        prims = set()
-        todo, seenf = [f], set()
-        while todo:
-            f0 = todo.pop()
-            if f0.qualname in seenf:
-                continue
-            seenf.add(f0.qualname)
-            for c in prog.calls_in(f0):
-                for g in prog.resolve_call(c, f0):
-                    if isinstance(g, Func):
-                        todo.append(g)
-                    else:
-                        prims.add(g)
-        amb = sorted(p for p in prims if p in AMBIENT)
-        key = 'memoised function ' + f.qualname
-        if amb:
-            rc.violation(
-                'memoised-ambient | ' + f.qualname,
-                '%s is memoised (%s) although its result depends on %s: '
-                'after a change of the working directory / file system the '
-                'same spelling maps to a stale answer (two identities for '
-                'one path, or one for two)' % (
-                    f.qualname, sorted(decs & MEMO), amb),
-                prog.loc(f, f.node), key=key)
-        else:
-            rc.ok({'memoised': f.qualname, 'pure': True}, key=key)
-    if n_memo == 0:
-        rc.ok({'memoised_functions': 0}, key='no memoised function reads '
-              'ambient state')
+    memoised_ambient_census(ctx, rc)
     # shape of the normaliser: str(abspath(fsdecode(x)))
     rets = [n for n in ast.walk(N.node) if isinstance(n, ast.Return)]
     key = 'normaliser shape'
@@ -325,7 +331,8 @@ def r7_3(ctx, rc):
             attrs = [e.attr for e in c.args[0].elts
                      if isinstance(e, ast.Attribute) and
                      isinstance(e.value, ast.Name) and
-                     e.value.id == K.params[0]]
+                     e.value.id == (K.params[0] if K.params
+                                    else K.self_name)]
             ok = sorted(attrs) == ['args', 'func_name', 'kwargs'] and \
                 len(c.args[0].elts) == 3
     if ok:
@@ -440,6 +447,15 @@ def r7_6(ctx, rc):
     c18.r18_4(ctx, rc)
     c18.r18_3(ctx, rc)
     c18.r18_5(ctx, rc)
+    c18.r18_7(ctx, rc)
+
+
+def r7_7(ctx, rc):
+    """Identities survive the cache file: what is written is read back by
+    the inverse codec (R16.3) - a lossy decode (``errors='replace'``) turns
+    a path or argument of the previous build into a different one."""
+    from .c16 import r16_3
+    r16_3(ctx, rc)
 
 
 RULES = [
@@ -450,4 +466,5 @@ RULES = [
     ('R7.4', 'lookups compare name/args/kwargs through JSON equality', r7_4),
     ('R7.5', 'the callee receives copies of the sanitised arguments', r7_5),
     ('R7.6', 'hashable-form tags and structural equality rules', r7_6),
+    ('R7.7', 'identities survive the cache file (R16.3)', r7_7),
 ]
